@@ -18,10 +18,11 @@
 #endif
 
 extern "C" void vf_main() {
-  k_build();
   for (int i = 0; i < VF_N; ++i) {
     g_prefer0[i] = vf_nondet_bool();
+    g_start_parking[i] = true;   // idle pool: every worker is inside enterSleep .. exitSleep (parked or about to call the futex)
   }
+  k_build();
   // the hint may be stale-true on an idle pool (a producer's delayed store); false negatives need a
   // concurrent producer and are not part of this scenario
   k_hint_store(vf_nondet_bool());
@@ -32,8 +33,6 @@ extern "C" void vf_main() {
   count = 2;
 #endif
   K_SPAWN_WORKERS();
-
-  vf_block_until(&g_all_entered);   // idle pool: every worker is inside enterSleep .. exitSleep
 
   { VfAtomic a; g_inflight = 1; g_submitted = (uint32_t)count; }
 #if VF_PATH == 1
@@ -48,13 +47,11 @@ extern "C" void vf_main() {
   k_schedule();
   k_schedule();
 #endif
-  { VfAtomic a; g_inflight = 0; g_submit_done = 1; if (g_started == g_submitted) g_all_started = 1; }
+  k_submission_done();
 
-  // the producer does not help (no wait()): it blocks until pool threads have started every task.
-  // A state where tasks remain and every worker is parked is the engine's deadlock.
-  vf_block_until(&g_all_started);
-  vf_check(g_started == g_submitted, "every submitted task was started exactly once");
-
-  k_teardown();
+  // The producer does not help (no wait()).  A state where tasks remain unstarted and every worker is
+  // parked is the engine's "thread parked forever" (the teardown is performed by whichever step
+  // completes the ledger; without it the workers are never stopped).
   vf_join_all();
+  vf_check(g_started == g_submitted, "every submitted task was started exactly once");
 }
